@@ -168,7 +168,7 @@ Lemma mbs_refines k vpm m (Hv8 : (Nat.divide 8 vpm)) : forall ws b rem prev xs r
   wf_bytes b -> (0 < rem)%nat ->
   dec_mbs k vpm m ws b rem prev = Some (xs, rem', p', b') ->
   exists us wm,
-    go_dbp_miniblocks k (N.of_nat vpm) ws b (N.of_nat rem) = (us, b', N.of_nat rem', wm)
+    go_dbp_miniblocks k (N.of_nat vpm) ws b (N.of_nat rem) = GOk (us, b', N.of_nat rem', wm)
     /\ recon k prev m us = (xs, p').
 Proof.
   induction ws as [|w ws IH]; intros b rem prev xs rem' p' b' Hwf Hrem H; cbn [dec_mbs] in H.
@@ -187,8 +187,22 @@ Proof.
     inversion H; subst xs rem' p' b'. clear H.
     (* what Go unpacks for this mini-block *)
     cbn [go_dbp_miniblocks].
-    assert (Emin : N.to_nat (N.min (N.of_nat vpm) (N.of_nat rem)) = n) by lia.
-    rewrite Emin.
+    replace (N.of_nat vpm * w) with (w * N.of_nat vpm) by lia. fold size.
+    assert (Emin : N.min (N.of_nat vpm) (N.of_nat rem) = N.of_nat n) by lia.
+    rewrite Emin, Nat2N.id.
+    (* the bits of the n values are present: the whole mini-block is *)
+    assert (Hneed : (negb (w =? 0) && (N.of_nat (length (firstn size b)) <? (N.of_nat n * w + 7) / 8)) = false).
+    { destruct (N.eqb_spec w 0); [reflexivity|]. cbn [negb andb]. apply N.ltb_ge.
+      rewrite firstn_length, Nat.min_l by exact Hle. subst size. rewrite N2Nat.id.
+      destruct Hv8 as [q Hq].
+      assert (E1 : w * N.of_nat vpm / 8 = N.of_nat q * w).
+      { rewrite Hq. replace (w * N.of_nat (q * 8)) with ((N.of_nat q * w) * 8) by lia.
+        apply N.div_mul. discriminate. }
+      rewrite E1.
+      assert (E2 : (7 + (N.of_nat q * w) * 8) / 8 = N.of_nat q * w).
+      { rewrite N.div_add by discriminate. reflexivity. }
+      rewrite <- E2. apply N.div_le_mono; [discriminate|]. subst n. nia. }
+    rewrite Hneed.
     set (vals := if w =? 0 then repeat 0 n
                  else firstn n (go_unpack_chunks k w (N.to_nat (N.of_nat vpm / 8)) (firstn size b))).
     assert (Evals : recon k prev m vals = (xs1, p1)).
@@ -201,15 +215,15 @@ Proof.
           rewrite N.div_mul by discriminate. lia. }
         rewrite E8, go_unpack_map, firstn_map, recon_mod. exact Er1. }
     assert (Esrc : (if w =? 0 then (repeat 0 n, b)
-                    else (firstn n (go_unpack_chunks k w (N.to_nat (N.of_nat vpm / 8))
-                                      (firstn (N.to_nat (N.of_nat vpm * w / 8)) b)),
-                          skipn (N.to_nat (N.of_nat vpm * w / 8)) b))
-                   = (vals, skipn size b)).
-    { subst vals size. rewrite (N.mul_comm (N.of_nat vpm) w).
-      destruct (N.eqb_spec w 0) as [->|_]; [|reflexivity].
-      rewrite N.mul_0_l. reflexivity. }
+                    else (firstn n (go_unpack_chunks k w (N.to_nat (N.of_nat vpm / 8)) (firstn size b)),
+                          skipn size b))
+                   = (vals, if w =? 0 then b else skipn size b)).
+    { subst vals. destruct (w =? 0); reflexivity. }
     rewrite Esrc.
-    replace (N.of_nat rem - N.min (N.of_nat vpm) (N.of_nat rem)) with (N.of_nat (rem - n)) by lia.
+    assert (Eb : (if w =? 0 then b else skipn size b) = skipn size b).
+    { destruct (N.eqb_spec w 0) as [->|_]; [|reflexivity]. subst size. rewrite N.mul_0_l. reflexivity. }
+    rewrite Eb.
+    replace (N.of_nat rem - N.of_nat n) with (N.of_nat (rem - n)) by lia.
     destruct (Nat.eq_dec (rem - n) 0) as [E0|E0].
     + (* the last needed mini-block: Go breaks, the specification loop stops *)
       rewrite E0 in *. cbn [N.of_nat N.eqb].
@@ -220,7 +234,7 @@ Proof.
     + destruct (N.eqb_spec (N.of_nat (rem - n)) 0) as [E|_]; [lia|].
       assert (Hpos : (0 < rem - n)%nat) by lia.
       destruct (IH _ _ _ _ _ _ _ (Forall_skipn _ size b Hwf) Hpos Er) as (us' & wm & Hgo & Hrec).
-      rewrite Hgo. exists (vals ++ us'), (N.max w wm). split; [reflexivity|].
+      rewrite Hgo. cbn [gbind]. exists (vals ++ us'), (N.max w wm). split; [reflexivity|].
       rewrite recon_app, Evals. cbn [fst snd]. rewrite Hrec. reflexivity.
 Qed.
 
@@ -264,7 +278,7 @@ Proof.
       cbn [go_dbp_blocks].
       destruct (N.eqb_spec (N.of_nat rem) 0) as [E|_]; [lia|].
       destruct (Nat.eqb_spec (length b) 0) as [E|_]; [lia|]. cbn [orb].
-      rewrite Ev, (take_upto_of_take_bytes _ _ _ _ Et), Hgo, Hrec.
+      rewrite Ev, (take_upto_of_take_bytes _ _ _ _ Et), Hgo. cbn [gbind]. rewrite Hrec.
       assert (Hwf3 : wf_bytes b3).
       { (* b3 is what Go's loop leaves: a suffix of b2 *)
         clear -Em Hwf2. revert b2 rem prev xs1 rem1 p1 b3 Em Hwf2.
@@ -625,18 +639,23 @@ Proof.
     rewrite app_length. f_equal. f_equal. lia.
 Qed.
 
+Lemma unflatten_cons2 data a b t :
+  unflatten data (a :: b :: t)
+  = firstn (N.to_nat (b - a)) (skipn (N.to_nat a) data) :: unflatten data (b :: t).
+Proof. reflexivity. Qed.
+
 Lemma unflatten_ok vs : forall pre tail,
   unflatten (pre ++ concat vs ++ tail) (offsets_from (N.of_nat (length pre)) vs) = vs.
 Proof.
   induction vs as [|v r IH]; intros pre tail; cbn [offsets_from]; [reflexivity|].
   destruct (offsets_from_cons (N.of_nat (length pre) + N.of_nat (length v)) r) as (t & Et).
-  rewrite Et. cbn [unflatten]. rewrite <- Et.
+  rewrite Et, unflatten_cons2, <- Et.
   replace (N.to_nat (N.of_nat (length pre) + N.of_nat (length v) - N.of_nat (length pre))) with (length v) by lia.
   rewrite Nat2N.id, skipn_app_exact. cbn [concat]. rewrite <- app_assoc, firstn_app_exact.
   f_equal.
   replace (N.of_nat (length pre) + N.of_nat (length v)) with (N.of_nat (length (pre ++ v)))
     by (rewrite app_length; lia).
-  rewrite <- (IH (pre ++ v) tail) at 2. f_equal. now rewrite <- !app_assoc.
+  rewrite <- (IH (pre ++ v) tail) at 3. f_equal. now rewrite <- !app_assoc.
 Qed.
 
 Theorem go_dlba_roundtrip vs :
@@ -704,20 +723,25 @@ Qed.
 
 (** * What is outside: witnesses *)
 
-(** Go tolerates a mini-block cut short by the end of the input (missing
-    bytes read as zeros); the specification decoder rejects it *)
-Theorem go_dbp_truncated_miniblock_lenient :
+(** Go tolerates a last mini-block without its padding (missing bytes read as
+    zeros) as long as the bits of the values it has to provide are present;
+    the specification decoder requires whole mini-blocks *)
+Theorem go_dbp_unpadded_miniblock_lenient :
   exists b xs, DeltaBP.dec 32 b = None /\ go_dbp_dec 32 b = GOk (xs, []).
 Proof.
-  exists [128; 1; 4; 3; 1; 1; 2; 0; 0; 0], [-1; -2; -3]%Z.
+  exists [128; 1; 4; 3; 1; 1; 2; 0; 0; 0; 5]. eexists.
   split; vm_compute; reflexivity.
 Qed.
+
+(** ... and (since b47fdb3) rejects a mini-block that lacks bits of its values *)
+Example go_dbp_truncated_miniblock_rejected :
+  go_dbp_dec 32 [128; 1; 4; 3; 1; 1; 2; 0; 0; 0] = GErr.
+Proof. vm_compute. reflexivity. Qed.
 
 (** Go's header checks are stricter than the format: a block size that is not
     a multiple of 128 is accepted by the specification decoder *)
 Theorem go_dbp_header_stricter :
   exists b r, DeltaBP.dec 32 b = Some r /\ go_dbp_dec 32 b = GErr.
 Proof.
-  exists (DeltaBP.enc 32 [] ++ []). eexists.
-  exists_dummy.
-Abort.
+  exists [64; 2; 1; 2]. eexists. split; vm_compute; reflexivity.
+Qed.
